@@ -2,7 +2,8 @@
    GROUPS whose members keep their scope (flags, arguments, positionals under any of optional / many / some /
    collect / count / last / fallback / guard / parse / map / hide / usage / group_help / boxed, pure, fail,
    combined by construct! and alternatives, and nested groups: everything but subcommands) and which start with an item (Meta::first_item: without one the
-   group panics -- known finding C04-adjacent-without-first-item);
+   group panics; check_invariants reports it since fix 1225acf unless the group is hidden -- known finding
+   C04-hidden-adjacent-without-first-item);
    every named item has a short name, a long name or a variable (the builder API cannot produce one
    without), every option level passes the positional invariant check (check_invariants). *)
 From BpafModel Require Export Eval.
